@@ -19,6 +19,28 @@ Example gen_sum_ties :
   (forall c l, slice_next c l = slice_next_rem (c + 1) l).
 Proof. repeat split. Qed.
 
+(* the statement skeleton of every function of queue.go (translator selector `shape`: one hex
+   digit per statement -- if, for, range, return, assignment, call, ++/--, else, braces) is the one
+   the model transcribes: an added guard, a dropped or reordered statement, a changed loop kind
+   changes the number and this Example no longer holds.
+   In hex (1 if, 2 for, 3 range, 4 return, 5 assignment, 6 call, 8 ++/--, d else, e {, f }):
+   newsize = 0xe4f; new = 0xe4f; add = 0xe1e51e5f584f1e65f558f; push = 0xe1e51e5f5584f1e65f55558f; isempty = 0xe4f; len = 0xe4f; clear = 0xe5f; front = 0xe1e94f4f; peek = 0xe1e5f1e94f54f; pop = 0xe1e94f581e5fde5f4f; poplast = 0xe1e94f51e5f581e5f4f; each = 0xe53e1e4f5ff; slice = 0xe1e4f553e55f4f *)
+Example gen_shapes :
+  newsize_shape = 3663 /\
+  new_shape = 3663 /\
+  add_shape = 17068143225657446742578575 /\
+  push_shape = 69911114652091879797741147535 /\
+  isempty_shape = 3663 /\
+  len_shape = 3663 /\
+  clear_shape = 3679 /\
+  front_shape = 3790163791 /\
+  peek_shape = 3974043557754191 /\
+  pop_shape = 4167329169406127136591 /\
+  poplast_shape = 66677266601068076097359 /\
+  each_shape = 15753434953215 /\
+  slice_shape = 63583612085559119.
+Proof. repeat split. Qed.
+
 Section Proofs.
 Variable T : Type.
 Variable zero : T.
